@@ -338,9 +338,12 @@ def run_case(case):
     # a 2-d array): the engines must honour the strides
     lr = np.random.default_rng([case["sub"], 5])
     if isinstance(data, np.ndarray) and data.dtype == np.float64 and data.ndim == 1 and lr.random() < .5:
-        k = int(lr.integers(0, 4))
+        k = int(lr.integers(0, 5))
         vals = data.copy()
-        if k == 0:
+        if k == 4:
+            # the same values in the other byte order (a column read from a FITS or big-endian binary file)
+            data = vals.astype(vals.dtype.newbyteorder())
+        elif k == 0:
             big = np.full(vals.size * 2, -777.25)
             big[::2] = vals
             data = big[::2]
@@ -355,7 +358,10 @@ def run_case(case):
             m2 = np.full((vals.size, 3), 9.75)
             m2[:, 1] = vals
             data = m2[:, 1]
-        dt = dt + "/" + ["strided", "negstride", "recfield", "2dcol"][k]
+        dt = dt + "/" + ["strided", "negstride", "recfield", "2dcol", "swapped"][k]
+    elif isinstance(data, np.ndarray) and data.ndim == 1 and data.dtype.itemsize > 1 and lr.random() < .3:
+        data = data.astype(data.dtype.newbyteorder())
+        dt = dt + "/swapped"
     COL.sample({"family": case["family"], "dtype": dt, "kw": kw,
                 "data_head": (data[:8] if isinstance(data, list) else data[:8].tolist()), "n": len(data)})
     res = {}
